@@ -10,7 +10,7 @@ import tempfile
 import warnings
 
 from .core import exc_class, hx, unhx
-from .fstree import (CHAIN_FILE, CHAIN_NAME, FILE_MODES, ROOT_SPELLINGS, apply_ops, chain_file, chain_has_file, collect_ids,
+from .fstree import (shuffled_scandir, wide_tree, CHAIN_FILE, CHAIN_NAME, FILE_MODES, ROOT_SPELLINGS, apply_ops, chain_file, chain_has_file, collect_ids,
                      count_nodes, enc_chain, enc_tree, gen_name, gen_reread, gen_tree, has_kind, impl_chain, materialise, mutate_tree,
                      other_spelling, ref_chain, ref_ids, shrink_tree, spelled_root, subdirs)
 
@@ -50,7 +50,11 @@ RULE = ("random file-system trees (depth <= 5, <= 60 nodes, files 0..100 bytes p
         "kind and a limit, N in 150..900 (ids at every level and the export must equal an iterative bottom-up reference of "
         "the pruned chain, root id = model) and N in {1000, 1500} (above the interpreter's recursion limit: open known "
         "finding tree-deeper-than-recursion-limit, demonstrated), more in the thorough tier; built, encoded, hashed and "
-        "removed iteratively, the recursion limit is never raised around the library; RE-READ (25 % of the tree cases): after the "
+        "removed iteratively, the recursion limit is never raised around the library; \"no filter\" is said by leaving path_filter at its default, by accept_all_paths or by the deprecated accept_all_directories; "
+        "the second (unlimited) read re-uses the first read's filter object in 40 % of the cases, gets a progress_callback "
+        "(positive counts) and, in half of the cases, a shuffled os.scandir; iter_tree is also called with dedup=True / "
+        "dedup=False (every node) and counted; special files are fifos, unix sockets and character devices, modes include 0, "
+        "set-uid/gid and sticky bits, names up to 255 bytes, two directories with 300 entries; RE-READ (25 % of the tree cases): after the "
         "reads and the export the tree is modified in place - files rewritten with other bytes of the same length and "
         "atime/mtime restored, exec bits flipped, file <-> symlink, directory -> file, entries added and removed, a directory "
         "renamed (same inode), two same-size files swapped - or removed and built again at the same path with other bytes "
@@ -61,8 +65,9 @@ RULE = ("random file-system trees (depth <= 5, <= 60 nodes, files 0..100 bytes p
         "/ '/.'), never resolving symbolic links; each case is read with the filter, read again unfiltered from a copy "
         "pruned by an independent routine of the harness (own glob matcher, fnmatch not used), read without limit, and "
         "exported with iter_directory and by hand (lazy data); separate cases compare the model's glob matcher with "
-        "re.compile(fnmatch.translate(p)) on generated (pattern, text) pairs ('[' without ']', '!]', '[]..]', reversed "
-        "ranges, '-' first/last, runs of '*', UTF-8 literals, bytes >= 128 in the text); non-trivial = the filter removes "
+        "the regex extract_regex_objs builds (fnmatch.translate on os.fsdecode(p), compiled on bytes) on generated (pattern, text) "
+        "pairs ('[' without ']', '!]', '[]..]', reversed ranges, '-' first/last, runs of '*', UTF-8 literals, lone bytes >= 0x80 "
+        "inside and outside bracket expressions, bytes >= 128 in the text); non-trivial = the filter removes "
         "something or a content is skipped or an object is deduplicated (glob cases: both outcomes occur)")
 TRUSTED = ["the OS layer (scandir, lstat, readlink, mkfifo, chmod, open) is exercised, not modelled: the model receives the tree as data",
            "lib/Sha1.v as an instance of the hash oracle",
@@ -81,7 +86,10 @@ ASSUMPTIONS = ["names within a directory are distinct, non-empty, free of '/' an
                "more than 940 directories is reported as that finding, every other outcome (wrong id or export at any depth, "
                "RecursionError on a shallower tree, another exception) is a violation; for deep chains the model gives the "
                "root id only (the export is compared with the harness's iterative reference)",
-               "glob patterns: valid UTF-8 (possibly empty), bracket expressions ASCII-only, no '..' component, no trailing '/', no NUL; "
+               "glob patterns: any bytes without NUL (possibly empty; not valid UTF-8 allowed since 5529d3b: os.fsdecode / surrogateescape), "
+               "no '..' component, no trailing '/'; bracket expressions hold ASCII and LONE bytes >= 0x80 only - a valid multi-byte "
+               "UTF-8 sequence inside brackets is outside the domain (fnmatch.translate orders range ends by code point, the regex "
+               "matches bytes); "
                "entry names are never '.' or '..' (scandir does not list them); the root_path given to "
                "ignore_directories_patterns and the path given to from_disk denote the same absolute path without resolving "
                "symbolic links (a root reached through a link must be named through that link on both sides)",
@@ -207,14 +215,9 @@ def _rel_paths(t, prefix=b"", acc=None):
 
 
 def _utf8_pattern(b):
-    """make a literal usable as a pattern: bytes that are not valid UTF-8 become '?' (one byte each); glob metacharacters
-    of a literal become '?' too (fnmatch has no quoting)"""
-    b = bytes(63 if x in b"*?[" else x for x in b)
-    try:
-        b.decode("utf-8")
-        return b
-    except UnicodeDecodeError:
-        return bytes(63 if x >= 128 else x for x in b)
+    """make a literal usable as a pattern: the glob metacharacters of a literal become '?' (fnmatch has no quoting); bytes
+    that are not valid UTF-8 are legitimate in a pattern (os.fsdecode / surrogateescape since 5529d3b) and stay"""
+    return bytes(63 if x in b"*?[" else x for x in b)
 
 
 def gen_patterns(rng, t):
@@ -245,7 +248,8 @@ def gen_patterns(rng, t):
                 n[i] = 63
             p = bytes(n)                                                           # '?' in place of one byte
         elif q == 6:
-            p = rng.choice([b"[a-c]*", b"[!.]*", b"[abA]*", b"[!a-z]*", b"*[0-9]", b"[.-]*", b"*/[a-c]", b"[a-cA-C]?*", b"[!a]"])
+            p = rng.choice([b"[a-c]*", b"[!.]*", b"[abA]*", b"[!a-z]*", b"*[0-9]", b"[.-]*", b"*/[a-c]", b"[a-cA-C]?*", b"[!a]",
+                            b"[\xff\xfe]*", b"[!\x80-\xff]*", b"*[\x80\xff]", b"[a\xff]?*"])     # lone bytes >= 0x80 in a bracket expression
         elif q == 7 and files:
             p = _utf8_pattern(rng.choice(files))                                   # a file only
         elif q == 8 and files:
@@ -254,7 +258,8 @@ def gen_patterns(rng, t):
         elif q == 9:
             p = rng.choice([b"zz-nothing", b"nothing/*", b"?" * 40, b"[z]zz"])     # matches nothing
         elif q == 10:
-            p = rng.choice([b"\xc3\xa9*", b"*\xc3\xa9", b"*\xc3\xa9*", b"\xc3\x89t\xc3\xa9", b"??t\xc3\xa9", b"\xc3\xa9?*"])   # UTF-8 literal
+            p = rng.choice([b"\xc3\xa9*", b"*\xc3\xa9", b"*\xc3\xa9*", b"\xc3\x89t\xc3\xa9", b"??t\xc3\xa9", b"\xc3\xa9?*",     # UTF-8 literal
+                            b"\xff*", b"*\xfe", b"\xff\xfe", b"?\xfe", b"\xc3?*", b"*\x80*", b"\xc3*"])   # not valid UTF-8
         elif q == 11 and dirs:
             p = _utf8_pattern(rng.choice(dirs)) + b"/*"                            # everything below a directory, not the directory
         elif q == 12 and names:
@@ -394,6 +399,9 @@ FIXED = [
     {"tree": D((b"a.c", R(b"1")), (b"b.c", D((b"x.c", R(b"2")), (b"y", R(b"3")))), (b"\xc3\xa9t\xc3\xa9", D((b"k", R(b"4")))), (b"\xff\xfe", D((b"k", R(b"5"))))),
      "filter": {"pats": [b"*.c".hex(), b"\xc3\xa9*".hex(), b"??".hex()], "abs": [False, False, False]}, "limit": None, "root": "slash3", "fspell": "dotted"},
     {"tree": D((b"x", D((b"y", D((b"z", D()))))), (b"e", D())), "filter": "empty", "limit": None, "root": "vialink_rel"},
+    # patterns and names that are not valid UTF-8 (UnicodeDecodeError before 5529d3b)
+    {"tree": D((b"\xff\xfe", D((b"k", R(b"1")))), (b"\xc3", D((b"k", R(b"2")))), (b"ok", D((b"\x80", R(b"3")), (b"a", R(b"4"))))),
+     "filter": {"pats": [b"\xff*".hex(), b"*/\x80".hex(), b"[\xc0-\xff]".hex()], "abs": [False, True, False]}, "limit": None, "root": "rel", "fspell": "abs"},
     # re-read after in-place modification
     {"tree": D((b"a", R(b"same")), (b"b", R(b"sam3", 0o755)), (b"s", D((b"c", R(b"hello")), (b"l", L(b"c")))), (b"e", D())),
      "filter": "empty", "limit": 4, "reread": {"seed": 1, "n": 5, "mode": "edit"}},
@@ -426,7 +434,15 @@ def gen(rng, tier):
         t = gen_case_tree(rng, big=(k % 30 == 7))
         flt = gen_filter(rng, t)
         shape, spell = gen_root(rng, flt)
-        cases.append({"tree": t, "filter": flt, "limit": gen_limit(rng, t), "root": shape, "fspell": spell, "reread": gen_reread(rng, 0.25)})
+        cases.append({"tree": t, "filter": flt, "limit": gen_limit(rng, t), "root": shape, "fspell": spell, "reread": gen_reread(rng, 0.25),
+                      # how "no filter" is said; one filter object for both reads or a fresh one; listing order of the second read
+                      "all_as": rng.choice(["default", "explicit", "deprecated"]), "reuse_filter": rng.random() < 0.4,
+                      "shuffle": rng.randrange(10**6) if rng.random() < 0.5 else None})
+    for i in range(2 if tier == "quick" else 12):
+        t = wide_tree(rng, 300 if tier == "quick" else rng.choice([100, 300, 600]))
+        flt = [{"pats": [b"n0*".hex(), b"*.d".hex(), b"*/x".hex()], "abs": [False] * 3}, "empty"][i % 2] if i < 2 else gen_filter(rng, t)
+        cases.insert(len(FIXED) + 5 + i, {"tree": t, "filter": flt, "limit": rng.choice([None, 0, 1]), "root": "real", "fspell": "same",
+                                          "all_as": "default", "reuse_filter": True, "shuffle": i})
     for k in range(20 if tier == "quick" else 400):
         cases.insert(len(FIXED) + k * (len(cases) // (25 if tier == "quick" else 420)), gen_glob_case(rng))
     chains = gen_chain_cases(rng, tier)
@@ -562,7 +578,7 @@ def _impl_chain(c):
             if data not in expected[_git_blob(data)]:
                 expected[_git_blob(data)].append(data)
         try:
-            res["export"], res["export_bad"] = _export_facts(d, expected, lim)
+            res["export"], res["export_bad"] = _export_facts(d, expected, lim, counts=False)
         except Exception as e:
             res["export_error"] = exc_class(e) + ":" + str(e)[:80]
     return res
@@ -604,28 +620,38 @@ def finding_key(c, ires, mres, verdict):
 
 
 # ------------------------------------------------------------------ glob validation cases (model vs fnmatch.translate + re)
-GLOB_ALPHA = b"ab.-!]^[*?/\\x~&|c0"
+GLOB_ALPHA = b"ab.-!]^[*?/\\x~&|c0\x80\xff\xc3\xe2"          # outside bracket expressions: any byte but NUL
+GLOB_CLASS_ALPHA = b"abc-!]^[.\\&~|xz09\x80\xa9\xbf\xff\xfe\xc0"    # inside: ASCII and bytes that can only be LONE (never a lead byte)
+
+
+def _glob_in_domain(p):
+    """no VALID multi-byte UTF-8 sequence inside a bracket expression (fnmatch.translate orders and drops range ends by code
+    point, the compiled regex matches bytes: the two only agree for ASCII and for lone bytes, which surrogateescape maps
+    one to one and in order)"""
+    inside = False
+    for ch in os.fsdecode(p):
+        inside = inside or ch == "["
+        if inside and 0x80 <= ord(ch) < 0xDC80:
+            return False
+    return True
 
 
 def _gen_glob_pattern(rng):
-    out = b""
-    classes = False
-    for _ in range(rng.randrange(0, 8)):
-        r = rng.random()
-        if r < 0.35:
-            body = bytes(rng.choice(b"abc-!]^[.\\&~|xz09") for _ in range(rng.randrange(0, 6)))
-            out += b"[" + body + (b"]" if rng.random() < 0.85 else b"")
-            classes = True
-        elif r < 0.45:
-            out += b"*" * rng.randrange(1, 4)
-        else:
-            ch = rng.choice(GLOB_ALPHA)
-            classes = classes or ch == 91
-            out += bytes([ch])
-    if not classes and rng.random() < 0.3:      # a UTF-8 literal, only where no bracket expression can swallow it
-        i = rng.randrange(len(out) + 1)
-        out = out[:i] + b"\xc3\xa9" + out[i:]
-    return out
+    while True:
+        out = b""
+        for _ in range(rng.randrange(0, 8)):
+            r = rng.random()
+            if r < 0.35:
+                body = bytes(rng.choice(GLOB_CLASS_ALPHA) for _ in range(rng.randrange(0, 6)))
+                out += b"[" + body + (b"]" if rng.random() < 0.85 else b"")
+            elif r < 0.45:
+                out += b"*" * rng.randrange(1, 4)
+            elif r < 0.52:
+                out += b"\xc3\xa9"                     # a valid two-byte sequence, as a literal
+            else:
+                out += bytes([rng.choice(GLOB_ALPHA)])
+        if _glob_in_domain(out):
+            return out
 
 
 def _gen_glob_text(rng, p):
@@ -633,17 +659,17 @@ def _gen_glob_text(rng, p):
         t = b""
         for ch in p:
             if ch == 42:
-                t += bytes(rng.choice(b"ab/.") for _ in range(rng.randrange(0, 3)))
+                t += bytes(rng.choice(b"ab/.\xff") for _ in range(rng.randrange(0, 3)))
             elif ch == 63:
                 t += bytes([rng.choice(b"ab/.\xc3\xa9\xff")])
             elif ch in b"[]!" and rng.random() < 0.5:
-                t += bytes([rng.choice(b"abc-!]^[.xz0\\")])
+                t += bytes([rng.choice(b"abc-!]^[.xz0\\\x80\xa9\xff")])
             else:
                 t += bytes([ch])
         if rng.random() < 0.15:
             t += bytes([rng.choice(b"a/\n")])
         return t
-    return bytes(rng.choice(b"ab.-!]^[/cxz09\\&~|\n\xc3\xa9\x80") for _ in range(rng.randrange(0, 7)))
+    return bytes(rng.choice(b"ab.-!]^[/cxz09\\&~|\n\xc3\xa9\x80\xff") for _ in range(rng.randrange(0, 7)))
 
 
 def gen_glob_case(rng):
@@ -695,7 +721,7 @@ def _parse_simple_glob(p):
             body = body[1:] if neg else body
             allowed, k = set(), 0
             while k < len(body):
-                if body[k] >= 128 or body[k] in b"]![^\\&~|":
+                if body[k] in b"]![^\\&~|":
                     raise ValueError("harness: unsupported bracket expression in %r" % p)
                 if k + 2 < len(body) and body[k + 1] == 45:
                     if body[k] > body[k + 2]:
@@ -797,7 +823,17 @@ def nontrivial(c):
 
 
 def classify(c):
-    return _classify(c) + (["reread-after-" + c["reread"].get("mode", "edit")] if isinstance(c, dict) and c.get("reread") else [])
+    ks = _classify(c) + (["reread-after-" + c["reread"].get("mode", "edit")] if isinstance(c, dict) and c.get("reread") else [])
+    if isinstance(c, dict) and "tree" in c and not _is_chain(c):
+        if c["filter"] == "all":
+            ks.append("no-filter-as=" + c.get("all_as", "explicit"))
+        if c.get("reuse_filter"):
+            ks.append("filter-object-reused")
+        if c.get("shuffle") is not None:
+            ks.append("second-read-shuffled")
+        if len(c["tree"]["c"]) >= 100:
+            ks.append("fan-out>=100")
+    return ks
 
 
 def _classify(c):
@@ -864,10 +900,11 @@ def _container(items, kind):
     return list(items)
 
 
-def _mk_filter(flt, root_spelled=None, root_abs=None):
+def _mk_filter(flt, root_spelled=None, root_abs=None, all_as="explicit"):
+    """None = leave Directory.from_disk's path_filter parameter at its default"""
     from swh.model import from_disk
     if flt == "all":
-        return from_disk.accept_all_paths
+        return {"default": None, "deprecated": from_disk.accept_all_directories}.get(all_as, from_disk.accept_all_paths)
     if flt == "empty":
         return from_disk.ignore_empty_directories
     if _is_pat(flt):
@@ -886,10 +923,17 @@ def _digests(data):
             "sha256": hashlib.sha256(data).digest(), "blake2s256": hashlib.blake2s(data, digest_size=32).digest()}
 
 
-def _export_facts(d, expected, limit):
+def _export_facts(d, expected, limit, counts=True):
     """run iter_directory and a by-hand (lazy) export; returns (export list, list of property failures)"""
     from swh.model import from_disk, model
     bad = []
+    if counts:      # iter_tree's dedup parameter: default = True = once per distinct id; False = every node
+        allids = collect_ids(d)
+        n_default, n_true, n_false = len(list(d.iter_tree())), len(list(d.iter_tree(dedup=True))), len(list(d.iter_tree(dedup=False)))
+        if n_default != len(set(allids.values())) or n_true != n_default:
+            bad.append("iter_tree() yields %d nodes, iter_tree(dedup=True) %d, the tree has %d distinct ids" % (n_default, n_true, len(set(allids.values()))))
+        if n_false != len(allids):
+            bad.append("iter_tree(dedup=False) yields %d nodes, the tree has %d" % (n_false, len(allids)))
     contents, skipped, dirs = from_disk.iter_directory(d)
     out = []
     ids = []
@@ -983,9 +1027,15 @@ def impl(c):
         out = []
         with warnings.catch_warnings():
             warnings.simplefilter("ignore")
+            from swh.model import from_disk
             for ph, th in c["pairs"]:
                 try:
-                    out.append(1 if re.compile(fnmatch.translate(unhx(ph).decode()).encode()).match(unhx(th)) else 0)
+                    p_ = unhx(ph)
+                    if p_.startswith(b"/"):     # extract_regex_objs would first make it relative to the root: same conversion, by hand
+                        rx = re.compile(os.fsencode(fnmatch.translate(os.fsdecode(p_))))
+                    else:                       # the repository's own pattern -> regex conversion
+                        rx = list(from_disk.extract_regex_objs(b"/nonexistent-swhv-root", [p_]))[0]
+                    out.append(1 if rx.match(unhx(th)) else 0)
                 except Exception as e:
                     out.append("error:" + exc_class(e))
         return {"glob": out}
@@ -999,14 +1049,28 @@ def impl(c):
         pruned = prune_tree(t, flt)
         proot = os.path.join(tmp, b"pruned")
         materialise(pruned, proot)
+        def read(path, f, **kw):
+            with warnings.catch_warnings():
+                warnings.simplefilter("ignore")        # accept_all_directories is deprecated
+                return Directory.from_disk(path=path, **kw) if f is None else Directory.from_disk(path=path, path_filter=f, **kw)
+        f1 = None
         try:
-            d = Directory.from_disk(path=root, path_filter=_mk_filter(flt, spelled, lexical), max_content_length=lim)
+            f1 = _mk_filter(flt, spelled, lexical, c.get("all_as", "explicit"))
+            d = read(root, f1, max_content_length=lim)
         except Exception as e:
             res["error"] = exc_class(e)
             res["symlink_msg"] = str(e).startswith("Symlink too large")
             d = None
         try:
-            d0 = Directory.from_disk(path=root, path_filter=_mk_filter(flt, spelled, lexical))
+            # second read: no limit; the SAME filter object again or a fresh one; a progress_callback; possibly another listing order
+            f0 = f1 if (c.get("reuse_filter") and (f1 is not None or flt == "all")) else _mk_filter(flt, spelled, lexical, c.get("all_as", "explicit"))
+            progress = []
+            if c.get("shuffle") is not None:
+                with shuffled_scandir(c["shuffle"]):
+                    d0 = read(root, f0, progress_callback=progress.append)
+            else:
+                d0 = read(root, f0, progress_callback=progress.append)
+            res["progress_bad"] = [repr(v) for v in progress if type(v) is not int or v <= 0][:3]
             res["ids_nolimit"] = {hx(k): v for k, v in collect_ids(d0).items()}
             dp = Directory.from_disk(path=proot)
             res["ids_pruned_copy"] = {hx(k): v for k, v in collect_ids(dp).items()}
@@ -1177,7 +1241,9 @@ def oracle(c, ires, mres):
         diff = sorted(k for k in set(a) | set(b) if a.get(k) != b.get(k))[:4]
         return "reading with the filter differs from reading the physically pruned copy at paths %s" % diff
     if ires["ids"] != ires["ids_nolimit"]:
-        return "max_content_length changes an id"
+        return "an id depends on max_content_length, on the listing order, on progress_callback or on re-using the filter object"
+    if ires.get("progress_bad"):
+        return "progress_callback got %s: not a positive entry count" % ires["progress_bad"]
     if "export_error" in ires:
         return "the export raised " + ires["export_error"]
     if ires["export_bad"]:
@@ -1272,6 +1338,9 @@ def shrink(c):
                                           abs=(f.get("abs") or [False] * len(f["pats"]))[:i] + (f.get("abs") or [False] * len(f["pats"]))[i + 1:]))
     if c.get("root", "real") not in ("real",):
         yield dict(c, root="real")
+    for k, v in (("reuse_filter", False), ("shuffle", None), ("all_as", "explicit")):
+        if c.get(k, v) != v:
+            yield dict(c, **{k: v})
     if isinstance(c["filter"], dict) and c["filter"].get("as", "list") != "list":
         yield dict(c, filter=dict(c["filter"], **{"as": "list"}))
     if c["limit"] is not None:
